@@ -89,6 +89,14 @@ func ruleC19CleanFailure(c *Ctx) {
 	c.Doc("c19.clean-failure", "usable afterwards: no write into caller-owned storage survives an error exit (the ownership obligations of C11, including the marker-restored-by-defer rule); the selector cache entry is stored only after every ParseSelector call succeeded; ExecReader releases the global mutex on every path (lock pairing)")
 	_, bad := c.classifyWrites("c19.clean-failure/own", nil, true)
 	_ = bad
+	ruleSelectorCacheDiscipline(c)
+}
+
+// ruleSelectorCacheDiscipline: the selector cache is filled only after a complete successful parse (shared by C19 and C09).
+func ruleSelectorCacheDiscipline(c *Ctx) {
+	if c.Property != "C19" {
+		c.Doc("c19.clean-failure", "the selector cache entry is stored only after every ParseSelector call succeeded (a selector that fails to parse must fail on every evaluation, not only the first); the cache function releases the global mutex on every path")
+	}
 	// the function that fills the process-wide selector cache (a map update on a package-level map)
 	var er *ssa.Function
 	for _, f := range c.P.pkgFuncs(modPath) {
@@ -170,4 +178,34 @@ func ruleC19CleanFailure(c *Ctx) {
 	}
 	c.Check(okC, "c19.clean-failure", erKey+"/cache-after-parse", c.P.Pos(er.Pos()), "cache[selector] is stored only on paths where every ParseSelector succeeded", whyC)
 	c.Check(okL, "c19.clean-failure", erKey+"/lock-pairing", c.P.Pos(er.Pos()), "every return path has Lock/Unlock balanced", whyL)
+}
+
+
+func init() { register("C09", ruleC09ErrorSites, ruleSelectorCacheDiscipline) }
+
+// ruleC09ErrorSites: the error discipline of C19 restricted to the selector evaluator: a step applied to a value of
+// the wrong shape reports its error through every caller up to ExecReader.
+func ruleC09ErrorSites(c *Ctx) {
+	c.Doc("c09.errors-propagate", "every call site inside selector.go whose callee can return a non-nil error: on every path on which the error is non-nil the enclosing function ends by returning a non-nil error (same idiom table as c19.no-drop) — a wrong-shaped element in the middle of an array yields an error, not NULL")
+	n := 0
+	for _, s := range c.P.errSites() {
+		if !strings.HasSuffix(c.P.Prog.Fset.Position(s.fn.Pos()).Filename, "/selector.go") {
+			continue
+		}
+		n++
+		c.Fn(c.P.funcKey(s.fn))
+		v := c.P.checkErrSite(s)
+		pos := c.P.Pos(s.call.Pos())
+		switch v.status {
+		case "ok":
+			c.Pass("c09.errors-propagate", s.key, pos, v.idiom)
+		case "undecided":
+			c.Unknown("c09.errors-propagate", s.key, pos, v.detail)
+		default:
+			c.Fail("c09.errors-propagate", s.key, pos, v.status+": "+v.detail)
+		}
+	}
+	if n < 20 {
+		c.Unknown("c09.errors-propagate", "selector.go", "-", fmt.Sprintf("only %d error-returning call sites found in selector.go (at least 20 confirmed by reading)", n))
+	}
 }
